@@ -199,7 +199,12 @@ except Exception as e:
 sys.exit(0)
 '''
 
+OPTIONS_REPLAY = "import runpy, sys\nsys.argv = ['c13_native']\nrunpy.run_path('/verif/replay_lib/c13_native.py', run_name='__main__')\n"
+
+
 def replay(ob):
+    if "graph_text." in ob["name"] or "initializer.assigned_under" in ob["name"]:
+        return OPTIONS_REPLAY
     if "attribute_text.evaluates" in ob["name"]:
         return ATTR_NONFINITE
     if "loop.break_is_printed" in ob["name"]:
